@@ -7,6 +7,8 @@ from inspect import Parameter
 from enum import Enum
 from itertools import islice
 
+import numpy
+
 from jax import config as jaxconfig
 from jax.numpy import (
     eye,
@@ -80,8 +82,13 @@ def make_serializable(x):
     serializable_x : variable
         The input variable converted into a serializable format.
     """
-    if isinstance(x, ndarray):
-        return {"type": "jax.numpy", "data": x.tolist()}
+    if isinstance(x, (ndarray, numpy.ndarray)):
+        return {
+            "type": "jax.numpy",
+            "data": x.tolist(),
+            "dtype": str(x.dtype),
+            "shape": list(x.shape),
+        }
     if isinstance(x, integer):
         return int(x)
     if isinstance(x, floating):
@@ -120,7 +127,13 @@ def deserialize(serializable_x):
     if isinstance(serializable_x, dict):
         data_type = serializable_x["type"]
         if data_type == "jax.numpy":
-            return array(serializable_x["data"])
+            # dtype and shape are absent in data written by older versions
+            dtype = serializable_x.get("dtype", None)
+            shape = serializable_x.get("shape", None)
+            value = array(serializable_x["data"], dtype=dtype)
+            if shape is not None:
+                value = value.reshape(tuple(shape))
+            return value
         elif data_type == "slice":
             dat = [_str_to_None(v) for v in serializable_x["data"]]
             return slice(*dat)
